@@ -137,6 +137,16 @@ def collect(h):
            not re.search(r"return\s+\(err\s*==\s*nil\)\s*&&\s*\(count\s*>\s*0\),\s*err", body) or not re.search(r"switch\s+toReadCount\s*\{\s*case\s+1:", body):
             raise h.Missing(f"{rel}: {fn}: half-open sub-range read / stop-at-empty-part / count==1 structure not recognised")
     body = h.func_body(rel, r"^func \(e \*appEventsType\) PutPlog\(", "PutPlog") + h.func_body(rel, r"^func \(e \*appEventsType\) PutWlog\(", "PutWlog")
+    # PutPlog: after encoding, an event that is not valid drops its argument objects and CUD rows (and the
+    # original bytes when there is an unlogged argument), so the returned / cached object shows its stored form
+    pp = h.func_body(rel, r"^func \(e \*appEventsType\) PutPlog\(", "PutPlog")
+    m = re.search(r"evData\s*:=\s*dbEvent\.storeToBytes\(\)\s*if\s+!dbEvent\.valid\(\)\s*\{(.*?)\n\t\}\n", pp, re.S)
+    clears = bool(m) and all(re.search(pat, m.group(1)) for pat in (
+        r"dbEvent\.argObject\.clear\(\)", r"dbEvent\.argUnlObj\.clear\(\)", r"dbEvent\.cud\s*=\s*makeCUD\(",
+        r"if\s+dbEvent\.argUnlObj\.QName\(\)\s*!=\s*appdef\.NullQName\s*\{\s*dbEvent\.buildErr\.bytes\s*=\s*nil"))
+    if not clears and re.search(r"argObject\.clear\(\)|makeCUD\(", pp):
+        raise h.Missing(f"{rel}: PutPlog: clearing of an invalid event not recognised")
+    items.append(("c02_putplog_clears_invalid", "bool", "true" if clears else "false", rel + " PutPlog"))
     n_put = len(re.findall(r"QNameForCorruptedData,\s*e\.app\.seqTrustLevel\s*==\s*isequencer\.SequencesTrustLevel_2:\s*err\s*=\s*e\.app\.config\.storage\.Put\(", body))
     n_ins = len(re.findall(r"SequencesTrustLevel_0,\s*e\.app\.seqTrustLevel\s*==\s*isequencer\.SequencesTrustLevel_1:\s*ok\s*:=\s*false\s*if\s+ok,\s*err\s*=\s*e\.app\.config\.storage\.InsertIfNotExists\(", body))
     if n_put != 2 or n_ins != 2:
